@@ -8,6 +8,11 @@
 // compared with a binding model transcribed from the statement, so all ways of reaching the macro
 // are also compared with each other.
 //
+// Use dimension: the VALUE of the call is printed once ({{ f(…) }}), or held and used several times
+// ({% set r = f(…) %}{{ r }}|{{ r }}, printed inside a for body, passed to a macro that prints its
+// parameter twice, two calls held before either is printed). A held value is the text the call
+// renders, every time it is used.
+//
 // History dimension (one engine, several renders): every way of reaching the macro is rendered
 // three times in a row on its engine; in the "seq" cases all ways of reaching the same library
 // live on ONE engine and are rendered one after the other, in every rotation of their order and
@@ -17,6 +22,7 @@ package main
 
 import (
 	"fmt"
+	"runtime/debug"
 	"sort"
 	"strings"
 
@@ -951,12 +957,15 @@ func run(t *vlib.T) {
 }
 
 func main() {
+	// the templates are tiny: a runaway recursion (a held callable that ends up among its own
+	// arguments) shall end the worker at 64 MB of stack, not at the default 1 GB
+	debug.SetMaxStack(64 << 20)
 	vlib.Main(vlib.Spec{
 		ID:    "C12",
 		Level: "exploration",
-		Rule:  "every macro signature with 0–3 parameters × every subset with defaults × 5 kinds of constant default × 4 declaration spacings × argument lists of 0…n+1 arguments × 6 kinds of argument × 6 bodies (print, set inside, call a sibling, call a sibling through _self, if/for over parameters, include a name relative to the defining template) × 11 call sites (top, for, if, block, block of an extending template, included template, inside another macro, through a macro w next to f calling f / _self.f, import statement inside a for body, importing template included from a for body) × padding of the defining or the calling template above 4096 bytes, as a union of full products (families, see NOTES.md). One case takes the same macro and call once per way of reaching it (direct, _self, import, from, from-as, multi-name from) and compares every render with the binding model. Histories on one engine: history 'each' renders every way's calling template three times in a row on its own engine; history 'seq' (own families) puts the calling templates of all ways on ONE engine next to one library and renders them one after the other, in every rotation of their order and in reverse, two passes each. Non-trivial: the signature or the call has at least one parameter/argument, i.e. a binding decision is made",
+		Rule:  "every macro signature with 0–3 parameters × every subset with defaults × 5 kinds of constant default × 4 declaration spacings × argument lists of 0…n+1 arguments × 6 kinds of argument × 6 bodies (print, set inside, call a sibling, call a sibling through _self, if/for over parameters, include a name relative to the defining template) × 11 call sites (top, for, if, block, block of an extending template, included template, inside another macro, through a macro w next to f calling f / _self.f, import statement inside a for body, importing template included from a for body) × padding of the defining or the calling template above 4096 bytes, as a union of full products (families, see NOTES.md). One case takes the same macro and call once per way of reaching it (direct, _self, import, from, from-as, multi-name from) and compares every render with the binding model. Histories on one engine: history 'each' renders every way's calling template three times in a row on its own engine; history 'seq' (own families) puts the calling templates of all ways on ONE engine next to one library and renders them one after the other, in every rotation of their order and in reverse, two passes each. Use of the call's VALUE (families 'held', 'held-seq', calls with at least one argument): besides being printed once, the value is held and used several times — {% set r = CALL %}{{ r }}|{{ r }}; {% set r = CALL %}{% for i in [1, 2] %}{{ r }}{% endfor %}; passed to a macro tw that prints its parameter twice, tw reached through {% import 'olib' as o %} (o.tw(CALL)) or defined in the calling template (tw(CALL), _self.tw(CALL)); two calls of the macro with different arguments held before either is printed ({% set r = CALL %}{% set q = CALL2 %}{{ r }}{{ q }}{{ r }}) — for every way of reaching the macro, on every site; model: a held value is the text the call renders, every time it is used. Non-trivial: the signature or the call has at least one parameter/argument, i.e. a binding decision is made",
 		Assumptions: []string{
-			"defaults and arguments are constant expressions or caller-scope variables; bodies read only their parameters; the result of a macro call is only printed; calls stand after the definitions/imports they use",
+			"defaults and arguments are constant expressions or caller-scope variables; bodies read only their parameters; the result of a macro call is printed, assigned with set and printed, or passed as an argument to a macro that prints it (never part of a larger expression, never filtered); calls stand after the definitions/imports they use",
 			"macros are defined at top level of a template that does not extend another one; more than three parameters, named arguments and other body shapes are outside the bound",
 		},
 		QuickDeadline: 150, ThoroughDeadline: 840,
@@ -964,8 +973,15 @@ func main() {
 		Extra: func(tier string, cov map[string]interface{}) {
 			var fs []string
 			for _, f := range families(tier == "thorough") {
-				fs = append(fs, fmt.Sprintf("%s: macro names %v, 0-%d parameters x every default subset, %d default kinds, %d spacings, %d argument kinds, %d bodies, %d sites, %d padding variants, %d ways of reaching per case, history %s",
-					f.name, f.names, f.maxN, len(f.defSt), len(f.spacings), len(f.argSt), len(f.bodies), len(f.sites), len(f.pads), nReaches, histName[f.hist]))
+				uses := []string{useName[uPrint]}
+				if f.uses != nil {
+					uses = uses[:0]
+					for _, u := range f.uses {
+						uses = append(uses, useName[u])
+					}
+				}
+				fs = append(fs, fmt.Sprintf("%s: macro names %v, 0-%d parameters x every default subset, %d default kinds, %d spacings, %d argument kinds, %d bodies, %d sites, %d padding variants, uses of the call's value %v, %d ways of reaching per case, history %s",
+					f.name, f.names, f.maxN, len(f.defSt), len(f.spacings), len(f.argSt), len(f.bodies), len(f.sites), len(f.pads), uses, nReaches, histName[f.hist]))
 			}
 			cov["families"] = fs
 			cov["histories"] = fmt.Sprintf("each: one engine per way of reaching the macro, its calling template rendered %d times in a row; seq: the calling templates of all ways on one engine, rendered one after the other in every rotation of the order %v and in reverse order, %d passes each", repeats, reachName, rounds)
